@@ -6,7 +6,8 @@ id=$1; wt=/tmp/seed-$id; out=/tmp/seed-out/$id; log=$out/verify.log
 exec > >(tee $log) 2>&1
 set -x
 cd $wt || exit 2
-git stash -q -u || true
+# (no git stash: the stash list is shared by all worktrees of /repo)
+git checkout -q -- . ; rm -f rsass/tests/seed_demo.rs
 git checkout -q --detach $(git -C /repo rev-parse HEAD) || exit 2
 if ! git apply --check $out/patch.diff; then echo "SUMMARY $id patch does not apply to HEAD"; exit 1; fi
 git apply $out/patch.diff
